@@ -63,7 +63,12 @@ def main():
       out['baseline_failed'] = int((re.search(r'(\d+) failed', r.stdout) or [0, 0])[1])
     demo = os.path.join(sd, 'demo.py')
     if os.path.exists(demo):
-      r1 = sh(['/venv/bin/python', demo], env=dict(env, VZ_REPO='/repo'), timeout=600)
+      clean = wt + '-clean'
+      sh(['git', '-C', '/repo', 'worktree', 'add', '--detach', clean, 'HEAD'])
+      try:
+        r1 = sh(['/venv/bin/python', demo], env=dict(env, VZ_REPO=clean), timeout=600)
+      finally:
+        sh(['git', '-C', '/repo', 'worktree', 'remove', '--force', clean])
       r2 = sh(['/venv/bin/python', demo], env=env, timeout=600)
       out['demo_unchanged_rc'] = r1.returncode
       out['demo_changed_rc'] = r2.returncode
